@@ -359,11 +359,8 @@ impl FilesParagraph {
 
     /// Set the license associated with the files paragraph
     pub fn set_license(&mut self, license: &License) {
-        let text = match license {
-            License::Name(name) => name.to_string(),
-            License::Named(name, text) => format!("{}\n{}", name, text),
-            License::Text(text) => text.to_string(),
-        };
+        // `License`'s Display is the field's text form: a text without a name starts with an empty line
+        let text = license.to_string();
         self.0.set("License", &text);
     }
 }
